@@ -251,12 +251,18 @@ func TestCheck(t *testing.T) {
 
 	debug.SetGCPercent(oldGC)
 
+	// ---- Part C: shard sizes around every power of two (and around 500, where a fixed-size scratch buffer would end) ----
+	partC(r, pub, &committee)
+
 	// ---- Part B: validator accepts honest units, rejects every single-field corruption ----
 	partB(r, distinct)
 
 	r.Set("distinct_nontrivial", int64(len(distinct)))
 	r.Set("rule", "cases = (data,parity,len,subset-mask[,local]) reconstructions + (committee size, publisher, receiver, unit, corruption) validations; "+
-		"non-trivial = subset neither empty nor full (something must be recovered or refused) or a corruption that changes the unit")
+		"non-trivial = subset neither empty nor full (something must be recovered or refused) or a corruption that changes the unit; "+
+		"part C: message lengths putting the shard / Merkle-leaf size at and around 32..1024 and 500: signed root == independent SHA-256-tagged reference root, proofs verify under the independent verifier, "+
+		"a shard altered in its first / middle / last bytes or length verifies under neither, message rebuilt from data-only / parity-only / mixed subsets; "+
+		"delivered messages are re-read after every later reconstruction")
 	r.Assume = append(r.Assume, "ed25519/sha256/klauspost reedsolomon primitives trusted", "one shard per unit (as the code states)")
 	r.Finish()
 }
@@ -675,5 +681,171 @@ func partB(r *ev.Run, distinct map[string]bool) {
 			}
 		}
 		r.Sample(map[string]any{"part": "B", "N": N, "corruptions": len(corruptions()), "proto_mutations": len(protoMutations())})
+	}
+}
+
+// ---- independent Merkle reference (SHA-256 tagging scheme of the Propeller specification) ----
+
+func refLeaf(data []byte) [32]byte {
+	h := sha256.New()
+	h.Write([]byte("<leaf>"))
+	h.Write(data)
+	h.Write([]byte("</leaf>"))
+	var out [32]byte
+	copy(out[:], h.Sum(nil))
+	return out
+}
+
+func refNode(l, r [32]byte) [32]byte {
+	h := sha256.New()
+	h.Write([]byte("<node><left>"))
+	h.Write(l[:])
+	h.Write([]byte("</left><right>"))
+	h.Write(r[:])
+	h.Write([]byte("</right></node>"))
+	var out [32]byte
+	copy(out[:], h.Sum(nil))
+	return out
+}
+
+// refRoot: leaves padded to the next power of two with the hash of the empty leaf, hashed pairwise bottom-up.
+func refRoot(leaves [][]byte) [32]byte {
+	n := 1
+	for n < len(leaves) {
+		n *= 2
+	}
+	level := make([][32]byte, n)
+	for i := range level {
+		if i < len(leaves) {
+			level[i] = refLeaf(leaves[i])
+		} else {
+			level[i] = refLeaf(nil)
+		}
+	}
+	for len(level) > 1 {
+		next := make([][32]byte, len(level)/2)
+		for i := range next {
+			next[i] = refNode(level[2*i], level[2*i+1])
+		}
+		level = next
+	}
+	return level[0]
+}
+
+func refVerify(root [32]byte, leaf []byte, index uint32, sib []merkle.Hash) bool {
+	cur := refLeaf(leaf)
+	for _, s := range sib {
+		if index%2 == 0 {
+			cur = refNode(cur, [32]byte(s))
+		} else {
+			cur = refNode([32]byte(s), cur)
+		}
+		index /= 2
+	}
+	return cur == root
+}
+
+// partC: for message lengths that put the shard size (and the Merkle leaf = encoded shard) at and around every power
+// of two up to 1024 and around 500: the signed root is the independent reference root of the encoded shards, every
+// proof verifies under the independent verifier, a shard altered in its first / middle / last byte (or cut / extended
+// by one byte) verifies under neither juno's Proof.Verify nor the reference, and the message is rebuilt from the data
+// shards alone, the parity shards alone and two mixed subsets.
+func partC(r *ev.Run, pub ident, committee *propeller.CommitteeID) {
+	type cfg struct{ d, p int }
+	cfgs := []cfg{{2, 2}}
+	if r.Thorough() {
+		cfgs = []cfg{{1, 1}, {2, 2}, {3, 2}, {2, 4}}
+	}
+	var sizes []int
+	for _, c := range []int{32, 64, 128, 256, 500, 512, 1024} {
+		w := 3
+		if c == 500 || c == 512 {
+			w = 14
+		}
+		for s := c - w; s <= c+w; s++ {
+			sizes = append(sizes, s)
+		}
+	}
+	for _, c := range cfgs {
+		n := c.d + c.p
+		seen := map[int]bool{}
+		for _, sz := range sizes {
+			for delta := 0; delta < 2*c.d+3; delta++ {
+				l := c.d*sz - delta
+				if l < 0 || seen[l] {
+					continue
+				}
+				seen[l] = true
+				msg := msgOf(l, byte(l))
+				units, err := propeller.CreatePropellerUnits(pub.priv, committee, propeller.Nonce(7), msg, c.d, c.p)
+				if err != nil || len(units) != n {
+					r.Violate("create-error size-sweep", map[string]any{"d": c.d, "p": c.p, "len": l, "err": fmt.Sprint(err)})
+					continue
+				}
+				ck := fmt.Sprintf("d=%d p=%d len=%d shard=%dB", c.d, c.p, l, len(units[0].ShardData[0]))
+				leaves := make([][]byte, n)
+				for i := range units {
+					leaves[i] = units[i].ShardData.MarshalProto()
+				}
+				want := refRoot(leaves)
+				for i := range units {
+					u := &units[i]
+					r.Add("evaluations", 1)
+					r.Add("size_sweep_units", 1)
+					if [32]byte(u.MessageRoot) != want {
+						r.Violate("signed-root-is-not-the-specified-merkle-root", map[string]any{"case": ck, "unit": i})
+					}
+					root := merkle.Hash(u.MessageRoot)
+					if !refVerify(want, leaves[i], uint32(u.ShardIndex), u.MerkleProof.Siblings) || !u.MerkleProof.Verify(&root, leaves[i], uint32(u.ShardIndex)) {
+						r.Violate("honest-proof-does-not-verify size-sweep", map[string]any{"case": ck, "unit": i})
+					}
+					sh := u.ShardData[0]
+					for _, t := range []struct {
+						name string
+						mut  func([]byte) []byte
+					}{
+						{"first-byte", func(b []byte) []byte { b[0] ^= 1; return b }},
+						{"middle-byte", func(b []byte) []byte { b[len(b)/2] ^= 0x10; return b }},
+						{"last-byte", func(b []byte) []byte { b[len(b)-1] ^= 0x80; return b }},
+						{"last-6th-byte", func(b []byte) []byte { b[max(len(b)-6, 0)] ^= 2; return b }},
+						{"cut-by-one", func(b []byte) []byte { return b[:len(b)-1] }},
+						{"extended-by-one", func(b []byte) []byte { return append(b, 0) }},
+					} {
+						if len(sh) == 0 {
+							continue
+						}
+						bad := propeller.ShardData{propeller.Shard(t.mut(bytes.Clone(sh)))}
+						leaf := bad.MarshalProto()
+						r.Add("evaluations", 1)
+						if u.MerkleProof.Verify(&root, leaf, uint32(u.ShardIndex)) {
+							r.Violate("altered-shard-verifies-against-the-signed-root "+t.name, map[string]any{"case": ck, "unit": i})
+						}
+						if refVerify(want, leaf, uint32(u.ShardIndex), u.MerkleProof.Siblings) {
+							r.Infra("reference verifier accepts an altered shard (%s %s)", ck, t.name)
+						}
+					}
+				}
+				for _, mask := range []int{1<<c.d - 1, (1<<n - 1) &^ (1<<c.d - 1), 0b0101 | 1<<(n-1), 0b1010 | 1} {
+					in := make([]*propeller.Unit, n)
+					present := 0
+					for i := 0; i < n; i++ {
+						if mask>>i&1 == 1 {
+							in[i] = cloneUnit(&units[i])
+							present++
+						}
+					}
+					if present < c.d {
+						continue
+					}
+					var got []byte
+					var cerr error
+					pan, pm := ev.Guard(func() { got, _, _, cerr = propeller.ConstructMessageFromUnits(in, 0, c.d, c.p) })
+					r.Add("evaluations", 1)
+					if pan || cerr != nil || !bytes.Equal(got, msg) {
+						r.Violate("reconstruct-wrong-message size-sweep", map[string]any{"case": ck, "mask": fmt.Sprintf("%b", mask), "panic": pm, "err": fmt.Sprint(cerr)})
+					}
+				}
+			}
+		}
 	}
 }
